@@ -897,3 +897,20 @@ func VerifC15MapElemStruct() {
 	out, rerr := r.Invoke(ctx, map[string]any{"x": x})
 	vassert(rerr == nil && out["key"] != nil && out["key"].In.A == x, "a value mapped below a pointer-typed map element arrives in the nested struct field")
 }
+
+type c15ArrIn struct{ Arr [2]int }
+
+// a node whose whole input is an array type, fed by a mapping of a source field: the array arrives (never a panic)
+func VerifC15ArrayInput() {
+	ctx := context.Background()
+	vcfg("fifo", 1)
+	x := vsymInt("x")
+	wf := NewWorkflow[c15ArrIn, [2]int]()
+	wf.End().AddInput(START, FromField("Arr"))
+	r, err := wf.Compile(ctx)
+	if err != nil {
+		return // refusing array-typed inputs at compile time would be fine as well
+	}
+	out, rerr := r.Invoke(ctx, c15ArrIn{Arr: [2]int{x, 2}})
+	vassert(rerr == nil && out[0] == x && out[1] == 2, "an array-typed input receives the mapped array")
+}
